@@ -1,18 +1,14 @@
 (* C14  Child lists hold only normalised nodes after any sequence of operations.
    Statements only; proofs live in Proofs/TagListOpsProofs.v.
 
-   THIS FILE DESCRIBES THE UNREPAIRED TREE: the model (Model/TagListOps.v) follows the
-   code, in which += is the inherited collections.UserList.__iadd__ (finding F4) and the
-   isinstance tuple of is_tag_child has no int (finding F5).  The statements the property
-   demands are therefore split into the part that holds (suffix _partial, with the missing
-   part named in the comment) and a machine-checked counterexample (suffix _refuted).
-   The full-strength statements for the repaired code are in Properties/C14.postfix (same
-   lemmas, instantiated with the two repair flags of the model set to true). *)
+   Version for the REPAIRED tree (TagList.__iadd__ delegating to extend, int in the
+   isinstance tuple of is_tag_child): the two repair flags of Model/TagListOps.v are true,
+   and every statement below is the full-strength one.  The `eq_refl` arguments are the
+   proofs that the flags are true; they do not typecheck on the unrepaired model. *)
 From Coq Require Import ZArith.
 From HT Require Import Model.Str Model.Tree Model.TagListOps Spec.FlattenSpec
      Proofs.TagListOpsProofs.
 
-(* ---------------------------------------------------------------------------------- *)
 (* flatten + _tagchilds_to_tagnodes = the depth-first, left-to-right flattening of the
    property text: lists, tuples, TagLists spliced, None dropped, numbers to their str()
    text, strings whole, anything unsupported TypeError -- for an argument tuple ...      *)
@@ -22,89 +18,50 @@ Theorem C14_flatten :
 Proof. exact flatten_correct. Qed.
 Print Assumptions C14_flatten.
 
-(* ... and for one argument in the iterable position of extend (a str is one item; an HTML
-   value iterates per character; None, numbers and other objects are not iterable). *)
+(* ... and for one argument in the iterable position of extend / += (a str is one item; an
+   HTML value iterates per character; None, numbers and other objects are not iterable). *)
 Theorem C14_flatten_iterable :
   forall x : pyval,
     tagchilds_to_tagnodes x = res_map embed (flat_iterable x).
 Proof. exact tagchilds_iterable_correct. Qed.
 Print Assumptions C14_flatten_iterable.
 
-(* ---------------------------------------------------------------------------------- *)
-(* Every operation, on a receiver holding the normalised children ns, leaves the receiver
-   object and the resulting list exactly as the declarative description op_spec says:
+(* Every operation (construct, append, extend, insert, +, reflected +, +=, slice,
+   repetition, in-place repetition, copy), on a receiver holding the normalised children
+   ns, leaves the receiver object and the resulting list exactly as the declarative
+   description op_spec says:
    construct = flat_spec args; append = ns ++ flat_spec (item :: args);
-   extend / + = ns ++ flat_spec (items of the argument); reflected + = the same in front;
-   insert = firstn k ns ++ flat_spec [item] ++ skipn k ns with k the clamped index;
+   extend / + / += = ns ++ flat_spec (items of the argument); reflected + = the same in
+   front; insert = firstn k ns ++ flat_spec [item] ++ skipn k ns with k the clamped index;
    slice = firstn (hi - lo) (skipn lo ns); repetition = ns n times; the operators that
-   return a new list leave the receiver as it was.
-   PARTIAL: all operations except += (op_ok excludes exactly OIadd on the unrepaired
-   tree); for += the statement is false, see C14_ops_iadd_refuted. *)
-Theorem C14_ops_partial :
+   return a new list leave the receiver as it was. *)
+Theorem C14_ops :
   forall (o : op) (ns : list node),
-    is_iadd o = false ->
     exec_op o (embed ns) =
     (embed (if in_place o then step_spec ns o else ns), res_map embed (op_spec o ns)).
 Proof.
-  intros o ns H. apply exec_op_correct. unfold op_ok. now rewrite H.
+  intros o ns. apply exec_op_correct. exact (op_ok_one eq_refl o).
 Qed.
-Print Assumptions C14_ops_partial.
-
-(* F4: tl = TagList(a); tl += [1, None, [2], object()] stores the raw values and raises
-   nothing, where the property demands TypeError and an unchanged list. *)
-Theorem C14_ops_iadd_refuted :
-  exists (ns : list node) (other : pyval),
-    snd (exec_op (OIadd other) (embed ns)) <> res_map embed (op_spec (OIadd other) ns)
-    /\ fst (exec_op (OIadd other) (embed ns)) <> embed ns
-    /\ op_spec (OIadd other) ns = Err TypeError.
-Proof.
-  exists [NText [97]], (PList [PInt [49]; PNone; PList [PInt [50]]; PBad 0]).
-  vm_compute. repeat split; discriminate.
-Qed.
-Print Assumptions C14_ops_iadd_refuted.
-
-(* F4, second face: tl += xy (a str) stores one child per character although strings are
-   to be kept whole (extend and + special-case str, the inherited += does not). *)
-Theorem C14_ops_iadd_splits_str_refuted :
-  exists (ns : list node) (s : str),
-    snd (exec_op (OIadd (PStr s)) (embed ns)) = Ok (embed (ns ++ [NText [120]; NText [121]]))
-    /\ op_spec (OIadd (PStr s)) ns = Ok (ns ++ [NText [120; 121]]).
-Proof. exists [NText [97]], [120; 121]. vm_compute. split; reflexivity. Qed.
-Print Assumptions C14_ops_iadd_splits_str_refuted.
+Print Assumptions C14_ops.
 
 (* Any history from the empty list: the children are the declarative fold of the supplied
-   arguments.  PARTIAL: histories without +=. *)
-Theorem C14_history_partial :
-  forall ops : list op,
-    forallb (fun o => negb (is_iadd o)) ops = true ->
-    run_ops ops [] = embed (run_spec ops []).
-Proof. intros ops H. apply (run_ops_correct ops []). now apply op_ok_noiadd. Qed.
-Print Assumptions C14_history_partial.
+   arguments. *)
+Theorem C14_history :
+  forall ops : list op, run_ops ops [] = embed (run_spec ops []).
+Proof. intros ops. apply (run_ops_correct ops []). exact (op_ok_all eq_refl ops). Qed.
+Print Assumptions C14_history.
 
-(* ---------------------------------------------------------------------------------- *)
 (* After any history every stored element is a str, an HTML or a node object -- never a
-   number, None, a list, a tuple, a TagList or an unsupported object.
-   PARTIAL: histories without +=. *)
-Theorem C14_invariant_partial :
-  forall ops : list op,
-    forallb (fun o => negb (is_iadd o)) ops = true ->
-    forallb is_stored_node (run_ops ops []) = true.
-Proof. intros ops H. apply invariant_gen. now apply op_ok_noiadd. Qed.
-Print Assumptions C14_invariant_partial.
+   number, None, a list, a tuple, a TagList or an unsupported object. *)
+Theorem C14_invariant :
+  forall ops : list op, forallb is_stored_node (run_ops ops []) = true.
+Proof. intros ops. apply invariant_gen. exact (op_ok_all eq_refl ops). Qed.
+Print Assumptions C14_invariant.
 
-Theorem C14_invariant_refuted :
-  exists ops : list op, forallb is_stored_node (run_ops ops []) = false.
-Proof.
-  exists [OConstruct [PStr [97]]; OIadd (PList [PInt [49]; PNone; PList [PInt [50]]; PBad 0])].
-  vm_compute. reflexivity.
-Qed.
-Print Assumptions C14_invariant_refuted.
-
-(* ---------------------------------------------------------------------------------- *)
-(* An operation that raises leaves the receiver unchanged (all operations, += included,
-   on any state), the history continues from the old list, the operators returning a new
-   list never touch the receiver, and the exception of an unsupported argument is
-   TypeError (the only other one in scope is ValueError for a zero slice step). *)
+(* An operation that raises leaves the receiver unchanged (all operations, on any state),
+   the history continues from the old list, the operators returning a new list never touch
+   the receiver, and the exception of an unsupported argument is TypeError (the only other
+   one in scope is ValueError for a zero slice step). *)
 Theorem C14_atomic :
   (forall (o : op) (st : state) (e : err),
       snd (exec_op o st) = Err e -> fst (exec_op o st) = st /\ step st o = st)
@@ -120,66 +77,54 @@ Proof.
 Qed.
 Print Assumptions C14_atomic.
 
-(* ---------------------------------------------------------------------------------- *)
-(* is_tag_child accepts every value the operations accept.
-   PARTIAL: every value except int and bool; for those see the refutation (F5).
-   Also: whatever is accepted in the iterable position is accepted by is_tag_child. *)
-Theorem C14_is_child_complete_partial :
-  (forall x : pyval,
-      is_int_like x = false -> flat_spec [x] <> Err TypeError -> is_tag_child x = true)
+(* is_tag_child accepts every value the operations accept, in element position and in the
+   iterable position. *)
+Theorem C14_is_child_complete :
+  (forall x : pyval, flat_spec [x] <> Err TypeError -> is_tag_child x = true)
   /\ (forall x : pyval, (exists its, as_iterable x = Ok its) -> is_tag_child x = true).
 Proof.
   split.
-  - intros x H. apply is_child_complete_gen. now left.
+  - intros x. apply is_child_complete_gen. right. reflexivity.
   - exact is_child_iterable.
 Qed.
-Print Assumptions C14_is_child_complete_partial.
+Print Assumptions C14_is_child_complete.
 
-(* F5: TagList(3) is accepted (child 3 as text) but is_tag_child(3) is False; the same for
-   True / False. *)
-Theorem C14_is_child_complete_refuted :
-  exists x : pyval, flat_spec [x] = Ok [NText [51]] /\ is_tag_child x = false.
-Proof. exists (PInt [51]). vm_compute. split; reflexivity. Qed.
-Print Assumptions C14_is_child_complete_refuted.
-
-(* ---------------------------------------------------------------------------------- *)
 (* is_tag_node holds of every element the normalisation produces, and of every stored
-   element after any history (PARTIAL for the history form: histories without +=). *)
+   element after any history. *)
 Theorem C14_is_node :
-  forall (args : list pyval) (ns : list node),
-    flat_spec args = Ok ns ->
-    forallb is_tag_node (embed ns) = true /\ forallb is_stored_node (embed ns) = true.
-Proof. intros args ns H. split; [eapply is_node_spec | eapply stored_spec]; exact H. Qed.
+  (forall (args : list pyval) (ns : list node),
+      flat_spec args = Ok ns ->
+      forallb is_tag_node (embed ns) = true /\ forallb is_stored_node (embed ns) = true)
+  /\ (forall ops : list op, forallb is_tag_node (run_ops ops []) = true).
+Proof.
+  split.
+  - intros args ns H. split; [eapply is_node_spec | eapply stored_spec]; exact H.
+  - intros ops. apply is_node_gen. exact (op_ok_all eq_refl ops).
+Qed.
 Print Assumptions C14_is_node.
 
-Theorem C14_is_node_history_partial :
-  forall ops : list op,
-    forallb (fun o => negb (is_iadd o)) ops = true ->
-    forallb is_tag_node (run_ops ops []) = true.
-Proof. intros ops H. apply is_node_gen. now apply op_ok_noiadd. Qed.
-Print Assumptions C14_is_node_history_partial.
-
-(* ---------------------------------------------------------------------------------- *)
 (* non-vacuity: concrete instances meeting the hypotheses *)
 
-(* TagList(a, [1, (None, HTML(b))], True) ; .insert(-1, [2.5]) ; + (tag7,) ; [1:] ; * 2 *)
+(* TagList(a, [1, (None, HTML(b))], True) ; .insert(-1, [2.5]) ; append(object()) raises ;
+   + (tag7,) ; += [3, None] ; [1:] ; * 2 *)
 Example C14_example_history :
   let ops := [OConstruct [PStr [97]; PList [PInt [49]; PTuple [PNone; PHtml [98]]]; PBool true];
               OInsert (-1) (PList [PFloat [50; 46; 53]]);
               OAppend (PBad 3) [];
               OAdd (PTuple [PNodeTag 7]);
+              OIadd (PList [PInt [51]; PNone]);
+              OIadd (PList [PList [PBad 0]]);
               OSlice (Some 1%Z) None None;
               OMul 2] in
-  forallb (fun o => negb (is_iadd o)) ops = true /\
   run_ops ops [] =
-  [PStr [49]; PHtml [98]; PStr [50; 46; 53]; PStr [84; 114; 117; 101]; PNodeTag 7;
-   PStr [49]; PHtml [98]; PStr [50; 46; 53]; PStr [84; 114; 117; 101]; PNodeTag 7].
-Proof. vm_compute. split; reflexivity. Qed.
+  [PStr [49]; PHtml [98]; PStr [50; 46; 53]; PStr [84; 114; 117; 101]; PNodeTag 7; PStr [51];
+   PStr [49]; PHtml [98]; PStr [50; 46; 53]; PStr [84; 114; 117; 101]; PNodeTag 7; PStr [51]].
+Proof. vm_compute. reflexivity. Qed.
 
 Example C14_example_atomic :
-  snd (exec_op (OExtend (PList [PStr [97]; PList [PBad 1]])) [PStr [98]]) = Err TypeError.
+  snd (exec_op (OIadd (PList [PStr [97]; PList [PBad 1]])) [PStr [98]]) = Err TypeError.
 Proof. vm_compute. reflexivity. Qed.
 
 Example C14_example_child :
-  is_int_like (PList [PInt [51]]) = false /\ flat_spec [PList [PInt [51]]] <> Err TypeError.
-Proof. vm_compute. split; [reflexivity | discriminate]. Qed.
+  flat_spec [PInt [51]] <> Err TypeError /\ flat_spec [PList [PBool true]] <> Err TypeError.
+Proof. vm_compute. split; discriminate. Qed.
